@@ -561,6 +561,207 @@ pub fn fill_in_cases(r: &mut Report) -> Result<()> {
 	Ok(())
 }
 
+/// "managed versions and scopes fill in omitted ones ... from parents and import-scoped BOMs": ONE artifact managed TWICE with
+/// different values, for every pair of sources the effective dependency management is assembled from — the entry that comes
+/// first in (own entries and imports in declaration order, then the parent's, then the grandparent's) supplies version, scope
+/// and optional AS A WHOLE; nothing of the second entry may show.  x (pair of sources) x (which fields differ) x (the dependency is the POM's own / inherited
+/// from the parent that also manages it).  Judged by the rule itself and by the reference resolver.
+pub fn managed_twice_cases(r: &mut Report) -> Result<()> {
+	const PAIRS: [&str; 7] = ["own entry before the parent's", "own entry before an imported BOM's", "first imported BOM before the second", "parent's entry before the grandparent's",
+		"an imported BOM's own entry before the entry of the BOM's parent", "the parent's own entry before the BOM the parent imports", "a BOM imported by an imported BOM before the outer BOM's later import"];
+	// (version, scope, optional) of the first and of the second entry
+	let value_sets: [((&str, Option<u8>, Option<bool>), (&str, Option<u8>, Option<bool>), &str); 7] = [
+		(("2", None, None), ("3", None, None), "versions differ"),
+		(("2", Some(1), None), ("2", Some(2), None), "scopes differ (runtime / test)"),
+		(("2", None, Some(false)), ("2", None, Some(true)), "optional differs"),
+		(("2", None, None), ("3", Some(1), Some(true)), "the first fixes only the version, the second also scope and optional"),
+		(("2", Some(1), Some(false)), ("3", Some(4), Some(true)), "everything differs"),
+		(("3", Some(2), None), ("2", None, None), "the first cuts the dependency (scope test), the second would keep it"),
+		(("2", Some(0), None), ("3", Some(1), None), "compile / runtime and versions"),
+	];
+	let ppom = |a: &str| { let mut p = pom("g", a, "1"); p.packaging = Some("pom".into()); p };
+	let imp = |a: &str| { let mut d = dep("g", a, Some("1")); d.type_ = Some("pom".into()); d.scope = Some(IMPORT); d };
+	for (pi, pair) in PAIRS.iter().enumerate() {
+		for (vi, (first, second, differ)) in value_sets.iter().enumerate() {
+			for inherited in [false, true] {
+				// the dependency is inherited only where the POM has a parent to inherit it from
+				if inherited && !matches!(pi, 0 | 3 | 5) { continue; }
+				let entry = |v: &(&str, Option<u8>, Option<bool>)| { let mut m = dep("g", "x", Some(v.0)); m.scope = v.1; m.optional = v.2; m };
+				let (m1, m2) = (entry(first), entry(second));
+				let mut a = pom("g", "a", "1");
+				let mut extra: Vec<APom> = vec![];
+				let parent_of = |p: &mut APom, par: &str| p.parent = Some(("g".into(), par.into(), "1".into()));
+				// an unrelated managed entry in front / behind, so that positions are not all 0
+				let filler = |n: &str| dep("g", n, Some("9"));
+				match pi {
+					0 => { a.dm = vec![filler("f0"), m1]; let mut par = ppom("par"); par.dm = vec![m2, filler("f1")]; parent_of(&mut a, "par"); if inherited { par.deps.push(dep("g", "x", None)); } extra.push(par); }
+					1 => { a.dm = vec![m1, imp("bom")]; let mut b = ppom("bom"); b.dm = vec![filler("f0"), m2]; extra.push(b); }
+					2 => { a.dm = vec![imp("bom1"), imp("bom2")]; let mut b1 = ppom("bom1"); b1.dm = vec![m1]; let mut b2 = ppom("bom2"); b2.dm = vec![m2, filler("f1")]; extra.push(b1); extra.push(b2); }
+					3 => { parent_of(&mut a, "par"); let mut par = ppom("par"); par.dm = vec![m1]; parent_of(&mut par, "gp"); let mut gp = ppom("gp"); gp.dm = vec![filler("f0"), m2]; if inherited { gp.deps.push(dep("g", "x", None)); } extra.push(par); extra.push(gp); }
+					4 => { a.dm = vec![imp("bom")]; let mut b = ppom("bom"); b.dm = vec![m1]; parent_of(&mut b, "bp"); let mut bp = ppom("bp"); bp.dm = vec![m2]; extra.push(b); extra.push(bp); }
+					5 => { parent_of(&mut a, "par"); let mut par = ppom("par"); par.dm = vec![m1, imp("bom")]; let mut b = ppom("bom"); b.dm = vec![m2]; if inherited { par.deps.push(dep("g", "x", None)); } extra.push(par); extra.push(b); }
+					_ => { a.dm = vec![imp("outer")]; let mut o = ppom("outer"); o.dm = vec![imp("inner"), imp("late")]; let mut i = ppom("inner"); i.dm = vec![m1]; let mut l = ppom("late"); l.dm = vec![m2]; extra.push(o); extra.push(i); extra.push(l); }
+				}
+				if !inherited { a.deps.push(dep("g", "x", None)); }
+				let mut files = vec![a];
+				for v in ["2", "3"] { let mut x = pom("g", "x", v); x.deps = vec![dep("g", &format!("under{v}"), Some("1"))]; files.push(x); files.push(pom("g", &format!("under{v}"), "1")); }
+				files.extend(extra);
+				let u = Universe::new(one_repo(files), vec![(coord("g", "a", "1"), 0)]);
+				let ans = ask_impl(&u, 10_000)?;
+				if absorb(r, &ans) { continue; }
+				// the rule: the FIRST entry, as a whole
+				let (eff_v, eff_s, eff_o) = (first.0, first.1.unwrap_or(0), first.2.unwrap_or(false));
+				let mut want = vec![(0usize, coord("g", "a", "1"), 0u8)];
+				if !eff_o { if let Some(sc) = reference::doc_scope_table(0, eff_s) { want.push((0, coord("g", "x", eff_v), sc)); want.push((0, coord("g", &format!("under{eff_v}"), "1"), sc)); } }
+				let what = format!("one artifact managed twice ({pair}; {differ}; the dependency is {})", if inherited { "inherited from the POM that declares the second entry's side" } else { "the POM's own" });
+				if ans.found.clone().map_err(|_| ()) != Ok(want.clone()) {
+					r.violation(format!("{what}: the first managed entry must supply version, scope and optional as a whole — get_maven_dependencies answers otherwise"),
+						format!("property C19 ({what})\n{}crate answered:\n{}\nthe first entry (version {}, scope {:?}, optional {:?}) gives:\n{}\n", u.replay(),
+							ans.found.as_ref().map_or_else(|e| e.clone(), |v| show_found(&u, v)), first.0, first.1.map(|s| SCOPES[s as usize]), first.2, show_found(&u, &want)));
+				}
+				let nt = oracle(r, &u, &ans, &what);
+				r.eval(&format!("managed-twice {pi} {vi} {inherited}"), nt);
+				r.count("managed_twice_universes");
+				r.count(&format!("managed_twice_pair_{pi}"));
+				r.case("managed-twice", case_text(&u, &ans));
+			}
+		}
+	}
+	Ok(())
+}
+
+/// "among conflicting versions of one artifact ... the occurrence nearest to the roots wins ..., its rivals' subtrees being
+/// discarded": two (three) versions of ONE artifact whose POMs differ — other dependencies, another repository, another parent —
+/// laid out so that depth-first, in declaration order, the LOSER is reached before the winner; likewise two versions of one
+/// parent POM / of one BOM used by two different dependencies.  Everything listed must come from the winner's POM.
+pub fn loser_first_cases(r: &mut Report) -> Result<()> {
+	let with = |p: APom, ds: Vec<ADep>| { let mut p = p; p.deps = ds; p };
+	let d = |a: &str, v: &str| dep("g", a, Some(v));
+	let xs = |n: usize| -> Vec<APom> { (1..=n).flat_map(|v| vec![with(pom("g", "x", &format!("{v}")), vec![d(&format!("u{v}"), "1"), d("common", "1")]), pom("g", &format!("u{v}"), "1")]).chain(std::iter::once(pom("g", "common", "1"))).collect() };
+	let mut us: Vec<(&str, Universe)> = vec![];
+	// the loser deeper and earlier in one root's tree
+	let mut f = vec![with(pom("g", "r", "1"), vec![d("m", "1"), d("x", "2")]), with(pom("g", "m", "1"), vec![d("x", "1")])]; f.extend(xs(2));
+	us.push(("loser x:1 below the first dependency, winner x:2 declared directly afterwards", Universe::new(one_repo(f), vec![(coord("g", "r", "1"), 0)])));
+	let mut f = vec![with(pom("g", "r", "1"), vec![d("m", "1"), d("q", "1")]), with(pom("g", "m", "1"), vec![d("n", "1")]), with(pom("g", "n", "1"), vec![d("x", "1")]), with(pom("g", "q", "1"), vec![d("x", "2")])]; f.extend(xs(2));
+	us.push(("loser x:1 at depth 3 below the first dependency, winner x:2 at depth 2 below the second", Universe::new(one_repo(f), vec![(coord("g", "r", "1"), 1)])));
+	// across roots
+	let mut f = vec![with(pom("g", "r1", "1"), vec![d("m", "1")]), with(pom("g", "m", "1"), vec![d("x", "1")]), with(pom("g", "r2", "1"), vec![d("x", "2")])]; f.extend(xs(2));
+	us.push(("loser x:1 deep below the first root, winner x:2 directly below the second root", Universe::new(one_repo(f.clone()), vec![(coord("g", "r1", "1"), 0), (coord("g", "r2", "1"), 0)])));
+	us.push(("loser x:1 deep below the first root, winner x:2 is itself a later root", Universe::new(one_repo(f), vec![(coord("g", "r1", "1"), 0), (coord("g", "x", "2"), 1)])));
+	// three versions, met in the order 1, 2, 3; the last one met wins
+	let mut f = vec![with(pom("g", "r", "1"), vec![d("m", "1"), d("q", "1"), d("x", "3")]), with(pom("g", "m", "1"), vec![d("n", "1")]), with(pom("g", "n", "1"), vec![d("x", "1")]), with(pom("g", "q", "1"), vec![d("x", "2")])]; f.extend(xs(3));
+	us.push(("three versions met in the order 1, 2, 3: the last one met is the nearest", Universe::new(one_repo(f), vec![(coord("g", "r", "1"), 0)])));
+	// the versions live in different repositories
+	{
+		let a = vec![with(pom("g", "r", "1"), vec![d("m", "1"), d("x", "2")]), with(pom("g", "m", "1"), vec![d("x", "1")]), with(pom("g", "x", "1"), vec![d("u1", "1")]), pom("g", "u1", "1")];
+		let b = vec![with(pom("g", "x", "2"), vec![d("u2", "1")]), pom("g", "u2", "1")];
+		let mut repos = one_repo(a);
+		repos.push(Repo { name: "second".into(), maven: "r://second/".into(), files: b.into_iter().map(|p| ((p.group.clone().unwrap(), p.artifact.clone(), p.version.clone().unwrap()), Entry::Pom(p))).collect() });
+		us.push(("the loser's POM comes from the first repository, the winner's from the second", Universe::new(repos, vec![(coord("g", "r", "1"), 0)])));
+	}
+	// the winner's dependencies come through ITS parent and ITS management
+	{
+		let mut par1 = pom("g", "par", "1"); par1.packaging = Some("pom".into()); par1.dm = vec![d("y", "1")];
+		let mut par2 = pom("g", "par", "2"); par2.packaging = Some("pom".into()); par2.dm = vec![d("y", "2")]; par2.deps = vec![d("extra", "1")];
+		let mut x1 = pom("g", "x", "1"); x1.parent = Some(("g".into(), "par".into(), "1".into())); x1.deps = vec![dep("g", "y", None)];
+		let mut x2 = pom("g", "x", "2"); x2.parent = Some(("g".into(), "par".into(), "2".into())); x2.deps = vec![dep("g", "y", None)];
+		let f = vec![with(pom("g", "r", "1"), vec![d("m", "1"), d("x", "2")]), with(pom("g", "m", "1"), vec![d("x", "1")]), x1, x2, par1, par2, pom("g", "y", "1"), pom("g", "y", "2"), pom("g", "extra", "1")];
+		us.push(("loser and winner have different versions of one parent, which manage y differently", Universe::new(one_repo(f), vec![(coord("g", "r", "1"), 0)])));
+	}
+	// two versions of one parent / of one BOM used by two different artifacts, the first one met must not serve the second
+	{
+		let mut par1 = pom("g", "par", "1"); par1.packaging = Some("pom".into()); par1.dm = vec![d("y", "1")]; par1.deps = vec![d("only1", "1")];
+		let mut par2 = pom("g", "par", "2"); par2.packaging = Some("pom".into()); par2.dm = vec![d("y", "2")];
+		let mut a = pom("g", "a", "1"); a.parent = Some(("g".into(), "par".into(), "1".into())); a.deps = vec![dep("g", "y", None)];
+		let mut b = pom("g", "b", "1"); b.parent = Some(("g".into(), "par".into(), "2".into())); b.deps = vec![dep("g", "z", None)]; b.dm = vec![d("z", "1")];
+		let f = vec![with(pom("g", "r", "1"), vec![d("a", "1"), d("b", "1")]), a, b, par1, par2, pom("g", "y", "1"), pom("g", "y", "2"), pom("g", "z", "1"), pom("g", "only1", "1")];
+		us.push(("two dependencies inherit from two versions of one parent POM", Universe::new(one_repo(f), vec![(coord("g", "r", "1"), 0)])));
+		let imp = |v: &str| { let mut i = dep("g", "bom", Some(v)); i.type_ = Some("pom".into()); i.scope = Some(IMPORT); i };
+		let mut bom1 = pom("g", "bom", "1"); bom1.packaging = Some("pom".into()); bom1.dm = vec![d("y", "1")];
+		let mut bom2 = pom("g", "bom", "2"); bom2.packaging = Some("pom".into()); bom2.dm = vec![d("y", "2")];
+		let mut a = pom("g", "a", "1"); a.dm = vec![imp("1")]; a.deps = vec![dep("g", "y", None)];
+		let mut b = pom("g", "b", "1"); b.dm = vec![imp("2")]; b.deps = vec![dep("g", "w", Some("1"))];
+		let w = with(pom("g", "w", "1"), vec![]);
+		let mut c = pom("g", "c", "1"); c.dm = vec![imp("2")]; c.deps = vec![dep("g", "y", None)];
+		let f = vec![with(pom("g", "r", "1"), vec![d("a", "1"), d("b", "1")]), with(pom("g", "r2", "1"), vec![d("c", "1")]), a, b, c, w, bom1, bom2, pom("g", "y", "1"), pom("g", "y", "2")];
+		us.push(("two POMs import two versions of one BOM (second root: y through BOM 2 after y:1 won)", Universe::new(one_repo(f.clone()), vec![(coord("g", "r", "1"), 0), (coord("g", "r2", "1"), 0)])));
+		us.push(("two POMs import two versions of one BOM (BOM 2 first)", Universe::new(one_repo(f), vec![(coord("g", "r2", "1"), 0), (coord("g", "r", "1"), 0)])));
+	}
+	for (what, u) in us {
+		let ans = ask_impl(&u, 10_000)?;
+		if absorb(r, &ans) { continue; }
+		let nt = oracle(r, &u, &ans, &format!("loser met first depth-first: {what}"));
+		r.eval(&format!("loser-first {what}"), nt);
+		r.count("loser_first_universes");
+		r.case("loser-first", case_text(&u, &ans));
+	}
+	Ok(())
+}
+
+/// "several repositories serving different artifacts": the FIRST repository, in the given order, that has a document for a
+/// coordinate decides — its POM is used and it is the repository recorded; a document that is there but unusable (wrong
+/// modelVersion, not deserialisable) is an error, NOT a reason to ask the next repository; only an absent document is.
+/// Every combination of what the first and the second repository hold for one artifact (nothing / a good POM / another
+/// good POM with other content / modelVersion 4.1.0 / broken XML) x where that artifact is needed (root, dependency, parent,
+/// imported BOM), behind an empty repository or not.
+pub fn repo_order_cases(r: &mut Report) -> Result<()> {
+	const HOLDS: [&str; 4] = ["nothing", "a usable POM", "a POM with modelVersion 4.1.0", "a document that does not deserialise"];
+	const NEEDED: [&str; 4] = ["as a root", "as a dependency", "as the parent of the root", "as a BOM the root imports"];
+	for first in 0..4usize { for second in 0..4usize { for pos in 0..4usize { for lead_empty in [false, true] {
+		if lead_empty && (first + second + pos) % 3 != 0 { continue; }
+		// the document of g:t:1 in repository `which` (0 = first, 1 = second): the two good POMs differ in what they bring
+		let doc = |kind: usize, which: usize| -> Option<Entry> {
+			let tag = if which == 0 { "a" } else { "b" };
+			match kind {
+				0 => None,
+				1 | 2 => {
+					let mut t = pom("g", "t", "1");
+					if pos >= 2 { t.packaging = Some("pom".into()); }
+					match pos { 3 => t.dm = vec![dep("g", "y", Some(if which == 0 { "1" } else { "2" }))], _ => t.deps = vec![dep("g", &format!("u{tag}"), Some("1"))] }
+					if kind == 2 { t.model_version = "4.1.0".into(); }
+					Some(Entry::Pom(t))
+				}
+				_ => Some(Entry::Broken("<project><modelVersion>4.0.0</modelVersion><groupId>g</groupId></project>".into())),
+			}
+		};
+		let mut root = pom("g", "r", "1");
+		match pos {
+			0 => {}
+			1 => root.deps = vec![dep("g", "t", Some("1"))],
+			2 => root.parent = Some(("g".into(), "t".into(), "1".into())),
+			_ => { let mut i = dep("g", "t", Some("1")); i.type_ = Some("pom".into()); i.scope = Some(IMPORT); root.dm = vec![i]; root.deps = vec![dep("g", "y", None)]; }
+		}
+		let key = |p: &APom| (p.group.clone().unwrap(), p.artifact.clone(), p.version.clone().unwrap());
+		let mut f0: Vec<((String, String, String), Entry)> = vec![];
+		let mut f1: Vec<((String, String, String), Entry)> = vec![];
+		// everything else lives in the second repository only (so the recorded repository of t tells the two apart)
+		for p in [root, pom("g", "ua", "1"), pom("g", "ub", "1"), pom("g", "y", "1"), pom("g", "y", "2")] { f1.push((key(&p), Entry::Pom(p))); }
+		if let Some(e) = doc(first, 0) { f0.push((("g".into(), "t".into(), "1".into()), e)); }
+		if let Some(e) = doc(second, 1) { f1.push((("g".into(), "t".into(), "1".into()), e)); }
+		let mut repos = vec![];
+		if lead_empty { repos.push(Repo { name: "empty".into(), maven: "r://empty/".into(), files: vec![] }); }
+		repos.push(Repo { name: "first".into(), maven: "r://first".into(), files: f0 });
+		repos.push(Repo { name: "second".into(), maven: "r://second/".into(), files: f1 });
+		let roots = if pos == 0 { vec![(coord("g", "t", "1"), 0)] } else { vec![(coord("g", "r", "1"), 0)] };
+		let u = Universe::new(repos, roots);
+		let ans = ask_impl(&u, 10_000)?;
+		if absorb(r, &ans) { continue; }
+		let what = format!("repository order: g:t:1 needed {}; the first repository holds {}, the second {}", NEEDED[pos], HOLDS[first], HOLDS[second]);
+		// the rule, spelled out for the verdict Ok / error: the first repository holding ANY document decides
+		let decisive = if first != 0 { first } else { second };
+		let must_fail = decisive != 1;
+		if must_fail != ans.found.is_err() {
+			r.violation(format!("{what}: resolution must {} (an unusable document is an error, only an absent one lets the next repository answer)", if must_fail { "fail" } else { "succeed" }),
+				format!("property C19 ({what})\n{}crate answered:\n{}\n", u.replay(), ans.found.as_ref().map_or_else(|e| e.clone(), |v| show_found(&u, v))));
+		}
+		let nt = oracle(r, &u, &ans, &what);
+		r.eval(&format!("repo-order {first} {second} {pos} {lead_empty}"), nt);
+		r.count("repo_order_universes");
+		r.case("repo-order", case_text(&u, &ans));
+	} } } }
+	Ok(())
+}
+
 /// Cyclic universes (outside the property's quantifier; compared with the model only, which runs out of fuel): the
 /// crate has no recursion limiter, so every cycle that is actually walked ends only at the Downloader's budget. Cycles
 /// through dependencies, parents and imports, of length 1 and 2 — and cycles that close only through an edge that is
@@ -866,7 +1067,7 @@ pub fn generated_cases(r: &mut Report, rng: &mut Rng, n: usize) -> Result<()> {
 	while i < n {
 		attempts += 1;
 		if attempts > n * 20 { bail!("generator rejects too many universes"); }
-		let stream = match i % 20 { 0..=11 => Stream::Valid, 12 | 13 => Stream::Errors, 14 | 15 => Stream::ImportFirst, 16 | 17 => Stream::Redeclare, 18 => Stream::Cyclic, _ => Stream::BrokenXml };
+		let stream = match i % 20 { 0..=11 | 18 => Stream::Valid, 12 | 13 => Stream::Errors, 14 | 15 => Stream::ImportFirst, 16 | 17 => Stream::Redeclare, _ => Stream::BrokenXml };
 		let u = gen_universe(rng, stream);
 		if stream != Stream::Cyclic {
 			let (_, size) = reference::resolve(&u, 250);
@@ -897,6 +1098,28 @@ pub fn generated_cases(r: &mut Report, rng: &mut Rng, n: usize) -> Result<()> {
 		if u.repos.iter().flat_map(|x| x.files.iter()).any(|(_, e)| matches!(e, Entry::Pom(p) if p.dm.iter().any(|d| d.scope == Some(IMPORT)))) { r.count("universe_with_import"); }
 		if u.repos.iter().flat_map(|x| x.files.iter()).any(|(_, e)| matches!(e, Entry::Pom(p) if p.deps.iter().any(|d| d.version.is_none()))) { r.count("universe_with_managed_version"); }
 		if u.repos.len() > 1 { r.count("universe_multi_repo"); }
+		// measured with the reference resolver: some POM's effective dependency management holds two entries for one key with
+		// different values, and a dependency of that POM that omits something is completed from that key
+		if stream != Stream::Cyclic {
+			let mut rf = Ref::new(&u);
+			let mut rival = false;
+			let mut clean = true;
+			for rp in u.repos.iter() { for ((g, a, v), e) in &rp.files { if let Entry::Pom(p) = e {
+				for d in p.dm.iter().chain(p.deps.iter()) {
+					for f in [Some(&d.group), Some(&d.artifact), d.version.as_ref(), d.type_.as_ref(), d.classifier.as_ref()].into_iter().flatten() { if f.contains(':') || f.contains(" @ ") { clean = false; } }
+				}
+				if let Ok((_, eff)) = rf.effective(g, a, v, 0) {
+					for d in &eff.declared {
+						if d.version.is_some() && d.scope.is_some() && d.optional.is_some() { continue; }
+						let k = key_of(d);
+						let ms: Vec<&reference::RDone> = eff.dm.iter().filter(|m| reference::collision_id(&m.coord) == k).collect();
+						if ms.len() >= 2 && ms.iter().any(|m| (&m.coord.version, m.scope, m.optional) != (&ms[0].coord.version, ms[0].scope, ms[0].optional)) { rival = true; }
+					}
+				}
+			} } }
+			if rival { r.count("universe_with_rival_managed_entries_used"); }
+			if clean { r.count("universe_files_clean"); }
+		}
 		if !u.unlisted.is_empty() { r.count("universe_with_unlisted_repository"); }
 		if u.url_map().iter().any(|(url, _)| url.contains("/gh/ost/")) || u.repos.iter().flat_map(|x| x.files.iter()).any(|(_, e)| matches!(e, Entry::Pom(p) if p.deps.iter().any(|d| d.group == "gh.ost"))) { r.count("universe_with_dangling_cut_edge"); }
 		if u.repos.iter().flat_map(|x| x.files.iter()).any(|(_, e)| matches!(e, Entry::Pom(p) if p.xml_style != 0)) { r.count("universe_with_realistic_xml"); }
@@ -911,6 +1134,27 @@ pub fn generated_cases(r: &mut Report, rng: &mut Rng, n: usize) -> Result<()> {
 			}
 		}
 		i += 1;
+	}
+	Ok(())
+}
+
+/// generated CYCLIC universes (a reference back to a lower-ranked library: dependency, parent or import).  Outside the
+/// property's quantifier; compared with the model only.  Runs in the child process (see main.rs): the crate has no recursion
+/// limiter, and a change that lets it recurse without downloading kills the process instead of ending at the download budget.
+pub fn cyclic_generated_cases(r: &mut Report, rng: &mut Rng, n: usize) -> Result<()> {
+	for _ in 0..n {
+		let u = gen_universe(rng, Stream::Cyclic);
+		let ans = ask_impl(&u, 400)?;
+		if absorb(r, &ans) { continue; }
+		let canon = format!("{} {} {}", u.g_resolvers(), u.g_files(), u.g_roots());
+		r.eval(&canon, ans.found.as_ref().map_or(false, |v| v.len() >= 2));
+		r.count("resolve_cyclic");
+		match &ans.found {
+			Ok(_) => r.count("resolve_cyclic_resolved"),
+			Err(e) if e.starts_with("PANIC") => r.violation(format!("cyclic universe: get_maven_dependencies panicked: {e}"), format!("property C19 (generated cyclic universe)\n{}", u.replay())),
+			Err(_) => r.count(if ans.budget_hit { "resolve_err_budget" } else { "resolve_cyclic_err_before_budget" }),
+		}
+		r.case("cyclic", case_text(&u, &ans));
 	}
 	Ok(())
 }
